@@ -1,7 +1,6 @@
 package sim
 
 import (
-	_ "unsafe"
 	"context"
 	"encoding/json"
 	"fmt"
@@ -15,6 +14,7 @@ import (
 	"testing"
 	"testing/synctest"
 	"time"
+	_ "unsafe"
 
 	"github.com/couchbase/gocbcore/v10"
 	"github.com/google/uuid"
